@@ -7,6 +7,7 @@ import (
 
 	"cosmossdk.io/math"
 	sdk "github.com/cosmos/cosmos-sdk/types"
+	"github.com/cosmos/cosmos-sdk/types/query"
 	banktypes "github.com/cosmos/cosmos-sdk/x/bank/types"
 
 	opchildtypes "github.com/initia-labs/OPinit/x/opchild/types"
@@ -367,7 +368,7 @@ func (e *L2Env) L2Obs(tr L2Track, r ExecResult) Ov {
 			diff("Query/BridgeInfo differs from the stored bridge info (%v / %v)", qerr, berr)
 		}
 		if vals, err := e.K.GetAllValidators(ctx); err == nil {
-			if r, qerr := e.Q.Validators(ctx, &opchildtypes.QueryValidatorsRequest{}); qerr != nil || len(r.Validators) != len(vals) {
+			if r, qerr := e.Q.Validators(ctx, &opchildtypes.QueryValidatorsRequest{Pagination: &query.PageRequest{Limit: 1000000}}); qerr != nil || len(r.Validators) != len(vals) {
 				diff("Query/Validators differs from the stored validators (%v)", qerr)
 			} else {
 				for i := range vals {
